@@ -23,7 +23,7 @@ func init() {
 		Run: c10,
 		Explanation: "Decides the structural conditions for total, non-destructive P&T rendering: (R10.1) every dispatching switch of the renderer names all constants of its enum type and its no-match path returns an error; the conversions table has an entry for every ordered pair of distinct scalar IO types; " +
 			"(R10.2) every dereference of an optional pointer field of an API configuration struct is preceded on every path by a non-nil test of the same access path, by an assignment from a tested path, or by a successful Validate() of the same struct whose body rejects a nil field; (R10.3) indices derived from user-supplied integer fields are bounded on both sides before indexing; " +
-			"(R10.4) no panicking type assertion on patch/transform inputs; (R10.5) patches never pass their source object to a mutating call, and a missing optional source path is a no-op while a required one is an error; (R10.6) on every feasible path (flag variables resolved by constant propagation) a rendered object is stored for application only after all three of from-XR patches, metadata rendering and name generation succeeded, render failures do not abort the other resources, and the apply loop skips nil slots.",
+			"(R10.4) no panicking type assertion on patch/transform inputs; (R10.5) patches never pass their source object to a mutating call, and a missing optional source path is a no-op while a required one is an error; (R10.6) on every feasible path (flag variables resolved by constant propagation) a rendered object is stored for application only after all three of from-XR patches, metadata rendering and name generation succeeded, render failures do not abort the other resources, and the apply loop skips nil slots. (R10.8) numeric ⇄ string conversions use the full width and base 10 (FormatFloat(…, -1, 64), ParseFloat(s, 64), ParseInt(s, 10, 64), FormatInt(i, 10)).",
 		NotDecided:  []string{"purity/determinism as a function", "wildcard expansion", "transform arithmetic and the convert round-trip laws", "fmt.Sprintf with hostile formats", "the documented meaning of each transform (value-level)"},
 		Assumptions: []string{"fieldpath.Paved stores deep copies (read in crossplane-runtime)", "enum constants are the declared constants of the named string types"},
 	})
